@@ -6,7 +6,7 @@ from props import lease_common as lc
 
 ID = 'C12'
 PROPS_FILE = 'theories/props/Properties_C12.v'
-CONE = ['theories/Lease.v', 'theories/LeaderRead.v', 'theories/proofs/C12.v']
+CONE = ['theories/Lease.v', 'theories/LeaderRead.v', 'theories/proofs/C12.v', 'theories/ReadActor.v', 'theories/proofs/C12actor.v']
 IMPORTS = 'From DE Require Import BufLog LeaderRead Lease.'
 M48 = (1 << 48) - 1
 
@@ -104,6 +104,28 @@ def check(run):
         dist['lease-reads-served'] = sum(1 for c, o in zip(cases + pc, outs) for e in lc.timeline(c, o) for j in e['served'] if e['kinds'][j] == 0)
         run.add_cases(len(lp) + len(pp), len({json.dumps(c) for c in cases + pc}), [{'case': cases[0], 'impl': outs[0]}], dist,
                       'seeded event sequences over 1-5 voters: lease/linearizable reads, AppendEntries deliveries to real followers, (late, duplicate, queued) acks, vote requests, sleeps past the lease, apply completions, step-down messages; + named witnesses')
+        # 3. the server's read actor (fast path of lease / eventual reads): batches drained in one wake-up, with the lease
+        #    revoked by a concurrent step-down, or expiring, in the middle of the batch
+        r = run.rng('read_actor'); ra = []
+        for k in range(300 if thorough else 90):
+            n = r.range(1, 12); pols = [r.choice([2, 2, 2, 3, 1]) for _ in range(n)]
+            ra.append([r.choice([100, 100, 3, 1]), r.choice([5000, 5000, 5000, 0]), pols, r.choice([0, 0] + list(range(1, n + 1))), 0])
+        timed = [[100, 30, [2] * 10, 0, 8], [100, 25, [2, 3, 2, 2, 3, 2, 2, 2], 0, 7], [4, 20, [2] * 9, 0, 6]]
+        routs = core.probe_parallel('read_actor', ra + timed, jobs=6)
+        rp = []
+        for c, o in zip(ra + timed, routs):
+            if isinstance(o, str): broken.append(('harness', 'read_actor probe error', (json.dumps(c) + ' -> ' + o)[:300])); continue
+            codes, flags, _ = o; served = [p for p, cd in zip(c[2], codes) if cd == 1]
+            for p, fl in zip(served, flags):
+                if p == 2 and fl != 1:
+                    violations.append({'class': 'read-actor-lease-read-served-without-valid-lease', 'probe': 'read_actor', 'input': c, 'output': o,
+                                       'why': 'a lease read of the batch was served although the lease was no longer valid when its state machine read started (policies %s, codes %s, lease valid at each read %s)' % (c[2], codes, flags)})
+                    break
+            if c[4] == 0: rp.append((c, [codes, flags]))
+        m3 = core.coq_index_list('From DE Require Import ReadActor.', '', 'read_actor_probe', rp, tag='C12actor')
+        if m3:
+            i = m3[0]; broken.append(('correspondence', 'DE.ReadActor.ra_run vs run_read_actor (probe read_actor)', '%d disagreements; first on %s -> impl %s' % (len(m3), json.dumps(rp[i][0]), json.dumps(rp[i][1]))))
+        run.cov['read_actor_batches'] = len(rp) + len(timed)
     except Broken as b:
         broken.append(('harness', b.what, b.detail))
     return flow.conclude(run, broken, violations)
@@ -115,6 +137,10 @@ def replay(path):
     core.harness_build()
     if r.get('probe') == 'lease_ds':
         out = core.probe('lease_ds', [r['input']])[0]; why = oracle_ds(r['input'], out)
+    elif r.get('probe') == 'read_actor':
+        c = r['input']; out = core.probe('read_actor', [c])[0]; codes, flags, _ = out
+        served = [p for p, cd in zip(c[2], codes) if cd == 1]
+        why = 'lease read served without a valid lease (codes %s, lease valid at each read %s)' % (codes, flags) if any(p == 2 and fl != 1 for p, fl in zip(served, flags)) else None
     else:
         out = lc.probe_cluster([r['input']])[0]; v = oracle_cluster(r['input'], out); why = v and '%s: %s' % v
     print('implementation output:', json.dumps(out)); print('VIOLATES: ' + why if why else 'ok'); return 1 if why else 0
@@ -123,7 +149,7 @@ META = {
     'title': 'Lease reads are served only under a valid leader lease',
     'level': 'proof',
     'technique': 'Rocq: laws of the packed lease cell; reuse of the C34 config theorem; a timed protocol model in which the lease is proved safe for all event sequences under three protections, each shown necessary by a witness, the code having none (refutation); differential checks of the cell, of the as-coded leader model and of the as-coded protocol model against the real ReadLease / leader / followers',
-    'text': "Rocq: C12_config_lease_below_election_timeout (validation => lease + rtt/2 < election_timeout_min, unbounded N); C12_pack_roundtrip, C12_term_wraps_at_16_bits, C12_revoke_invalidates, C12_revoked_until_renewed (all op sequences), C12_renew_valid_exactly_until_deadline, C12_validity_monotone_in_time; C12_lease_safe_with_protections (all event sequences of the timed model: vote withholding + acked-request anchoring + fresh quorum + lease < emin => no lease validity once another node won), C12_stepdown_invalidates_forever; C12_as_coded_refuted and C12_each_protection_is_necessary (witness traces). The witnesses are replayed on a real leader with real followers (probe lease_cluster) and the property is evaluated on the implementation's own outputs.",
+    'text': "Server read actor (the task that serves lease and eventual reads on the fast path; model DE.ReadActor, probe read_actor through the hook verif_read_actor_batch): C12_read_actor_served_lease_reads_saw_valid_lease - in every drained batch, with the lease revoked at any point inside it, each lease read that is served saw a valid lease at the moment of its own state machine read; C12_read_actor_no_lease_read_without_lease - once the lease is gone no lease read of the batch is served; on the real actor also batches in which a short lease expires between two reads. Rocq: C12_config_lease_below_election_timeout (validation => lease + rtt/2 < election_timeout_min, unbounded N); C12_pack_roundtrip, C12_term_wraps_at_16_bits, C12_revoke_invalidates, C12_revoked_until_renewed (all op sequences), C12_renew_valid_exactly_until_deadline, C12_validity_monotone_in_time; C12_lease_safe_with_protections (all event sequences of the timed model: vote withholding + acked-request anchoring + fresh quorum + lease < emin => no lease validity once another node won), C12_stepdown_invalidates_forever; C12_as_coded_refuted and C12_each_protection_is_necessary (witness traces). The witnesses are replayed on a real leader with real followers (probe lease_cluster) and the property is evaluated on the implementation's own outputs.",
     'note': "The unchanged tree violates the protocol clauses (known findings: followers grant votes while the leader's lease runs; renewal counts the cumulative match index, so one fresh ack of five voters renews). Trusted: Coq kernel, hand models validated by the probes, real clock read by the probe.",
     'design_ref': 'DESIGN.md §4 C12',
 }
